@@ -585,12 +585,14 @@ def gen_rcase(r, k):
         ef = [[V.dyadic(r, -2, 2, bits=3) for _ in range(3)] for _ in range(natoms)]
         steps.append({"pos": [list(q) for q in p], "eforce": ef, "flags": fs, "perm": perm, "nt": nt,
                       "assign": [r.randrange(nt) for _ in range(NPERM)] if r.random() < 0.5 else []})
+    # atomic gradients collected inside the variable (colvar::collect_cvc_gradients), switched on by script for a plain scalar variable
+    cg = r.choice(scalar) if (scalar and r.random() < 0.3) else None
     rf = r.choice([0, 0, 2, 3])
     if rf:
         for b in biases:
             if b["kind"] in ("meta", "abf", "histogram") and r.random() < 0.6:
                 b["lines"].insert(2, "  outputFreq %d" % rf)
-    return {"id": k, "natoms": natoms, "restartfreq": rf, "vars": vars_, "biases": biases, "use_script": use_script, "script": script, "steps": steps,
+    return {"id": k, "natoms": natoms, "restartfreq": rf, "collect_gradient": cg, "vars": vars_, "biases": biases, "use_script": use_script, "script": script, "steps": steps,
             "smp": r.choice(["perm", "perm", "perm", "omp"]), "binary": r.random() < 0.3}
 
 
@@ -610,7 +612,8 @@ def rcase_scenario(c, smp, tag):
     L += ["forcescript " + " ".join("v%d %s" % (v, V.hexf(f)) for v, f in c["script"])] if c["use_script"] else ["forcescript"]
     # periodic restart / output files written from inside calc() (colvarsRestartFrequency of the engine; outputFreq of the biases)
     L += ["restartfreq %d" % c.get("restartfreq", 0)]
-    L += ["prefix %s" % tag, "smp %s 1" % smp, "new", "log %s.log" % tag, "config EOF"] + [l.replace("@TAG@", tag) for l in rcase_config(c)] + ["EOF", "setupoutput", "show items 1 af 1 tf 1"]
+    L += ["prefix %s" % tag, "smp %s 1" % smp, "new", "log %s.log" % tag, "config EOF"] + [l.replace("@TAG@", tag) for l in rcase_config(c)] + ["EOF", "setupoutput", "show items 1 af 1 tf 1"] + \
+         (['scriptq cv colvar v%d set collect_gradient on' % c["collect_gradient"]] if c.get("collect_gradient") is not None else [])
     for st in c["steps"]:
         for v, f in st["flags"]:
             L += ['scriptq cv colvar v%d cvcflags "%s"' % (v, " ".join(map(str, f)))]
